@@ -66,7 +66,7 @@ def plan(seed, tier):
             {
                 "world": c02.GEN_WORLD,
                 "fn": "gen_programs",
-                "payload": {"seed": "%s/c20gen/%d" % (seed, g), "count": nprog // ngen, "tier": tier},
+                "payload": {"seed": "%s/c20gen/%d" % (seed, g), "count": nprog // ngen, "tier": tier, "corpus": g < 2},
                 "timeout": 300,
             }
         )
